@@ -1,4 +1,4 @@
-CONSTANTS MaxLen = 4  LawAlpha = {"a", "r", "n", "-", "[", "]"}  KmerK = 4
+CONSTANTS MaxLen = 4  PlainMaxLen = 3  LawAlpha = {"a", "r", "n", "-", "[", "]"}  KmerK = 4
 INIT Init
 NEXT Next
 INVARIANT LawsHold
